@@ -184,6 +184,30 @@ def run(ctx):
             if e1 > 4 * h * h * (abs(d[3]) + abs(d[1])) + 1e-9 * scale1 or e2 > 4 * h * h * (abs(d[4]) + abs(d[2])) + 1e-7 * scale2:
                 ctx.violation('imag1/imag12 of f(x + ih + jh) do not give h f\'(x), h^2 f\'\'(x)', program='%s(%s(x/2))' % (f1, f2), x=x, h=h,
                               imag1_over_h=float(np.real(R.imag1)) / h, d1=d[1], imag12_over_h2=float(np.real(R.imag12)) / h ** 2, d2=d[2])
+        # at the step size the multicomplex method actually uses (~1e-15), including negative base points and the
+        # operators ** (integer) and / : imag1 / h and imag12 / h^2 against the Taylor-series oracle
+        hh = 1.7e-15
+        probes = [(nm, (lambda t, g=nm: getattr(np, g)(t)), UNARY[nm][1]) for nm in names if hasattr(np, nm)]
+        probes += [('x**2', lambda t: t ** 2, (-3, 3)), ('x**3', lambda t: t ** 3, (-3, 3)), ('x**-2', lambda t: t ** -2, (-3, -0.3)),
+                   ('1/x', lambda t: 1 / t, (-3, -0.3)), ('sin(x)/cos(x)', lambda t: np.sin(t) / np.cos(t), (1.7, 4.5)),
+                   ('sin(x)**2', lambda t: np.sin(t) ** 2, (-3, 3)), ('x/(1-x)', lambda t: t / (1 - t), (1.5, 4))]
+        for nm, g, (lo, hi) in probes:
+            for it in range(max(4, budget // 10)):
+                x = rng.uniform(lo, hi)
+                ctx.tried(('tiny-step', nm, x))
+                try:
+                    d = derivatives(g, x, 2)
+                    R = g(Bicomplex(x + 1j * hh, hh))
+                except Exception as ex:
+                    ctx.violation('%s raised %r on x + ih + jh with h = 1.7e-15' % (nm, ex), x=x)
+                    break
+                e1 = abs(float(np.real(R.imag1)) / hh - d[1]) / (abs(d[1]) + abs(d[0]) + 1e-300)
+                e2 = abs(float(np.real(R.imag12)) / hh ** 2 - d[2]) / (abs(d[2]) + abs(d[1]) + abs(d[0]) + 1e-300)
+                if max(e1, e2) > 1e-9:
+                    ctx.violation('imag1 / imag12 of f(x + ih + jh) at the multicomplex step size do not give h f\'(x), h^2 f\'\'(x)', function=nm,
+                                  x=x, h=hh, rel_error_first=e1, rel_error_second=e2,
+                                  signature='C01-multicomplex2-inverse-trig' if nm in ('arcsin', 'arccos', 'arctan') else None)
+                    break
     ctx.notes.append('worst relative deviation from the idempotent oracle on this run: %.3g (envelope %g)' % (worst, ENVELOPE))
     ctx.assumptions.append('numpy\'s complex elementary functions are the reference for the holomorphic extension (oracle) and are '
                            'identified with Mathlib\'s Complex.exp/sin/cos/sinh/cosh/log in the theorems; branch cuts away from the real '
